@@ -162,6 +162,11 @@ def layouts(quick):
     out = []
     for combo in itertools.product(per_job, repeat=2):
         out.append([{"state": s, "model": m, "member": mem} for s, m, mem in combo])
+    # files written by the task body whose names merely END like a marker (task.epoch-3.done, task.step.failed): only <script>.done /
+    # .failed / .pid are markers
+    for stray in ("epoch-3.done", "step.failed", "old.pid"):
+        for (s1, m1, mem1), (s2, m2, mem2) in itertools.product(per_job, [("done", "a", "jobs"), ("failed", "b", "none")]):
+            out.append([{"state": s1, "model": m1, "member": mem1, "stray": stray}, {"state": s2, "model": m2, "member": mem2}])
     if not quick:
         # a few three-job layouts
         three = [("done", "a", "jobs"), ("failed", "b", "none"), ("running", "a", "bak"), ("done", "b", "none")]
@@ -200,6 +205,8 @@ def build_layout(d: Path, layout):
             (p / "task.failed").write_text("1")
         if st in ("running", "failed+running"):
             (p / "task.pid").write_text(json.dumps({"type": "local", "pid": os.getpid()}))
+        if j.get("stray"):
+            (p / f"task.{j['stray']}").write_text("1" if j["stray"].endswith("failed") else json.dumps({"type": "local", "pid": os.getpid()}) if j["stray"].endswith("pid") else "")
         if j["member"] == "jobs":
             (d / "xp" / "x" / "jobs" / TASK / ident).symlink_to(p)
         elif j["member"] == "bak":
